@@ -68,7 +68,7 @@ func streamC11(env *runEnv) {
 	points := []string{"start", "handshake", "tunnel", "auth", "channel", "data-c2h", "data-h2c", "data-both"}
 	causes := []string{"close-channel", "out-of-order", "unframeable", "tcp-close", "tcp-reset", "close-in-only", "close-out-only",
 		"repeat-channel-create", "close-in-before-first-byte", "unframeable-while-client-not-reading",
-		"out-gone-before-channel-create", "unframeable-in-pieces", "host-first-close-channel", "host-first-close-in-only"}
+		"out-gone-before-channel-create", "unframeable-in-pieces", "host-first-close-channel", "host-first-close-in-only", "tcp-close-while-host-does-not-read"}
 	reps := 1
 	if env.thorough() {
 		reps = 10
@@ -97,6 +97,9 @@ func streamC11(env *runEnv) {
 					if strings.HasPrefix(cause, "host-first-") && point != "channel" {
 						continue
 					}
+					if cause == "tcp-close-while-host-does-not-read" && point != "data-both" {
+						continue
+					}
 					if cause == "host-first-close-in-only" && transport == "ws" {
 						continue
 					}
@@ -121,8 +124,16 @@ func runC11Cell(srv *l2server, transport, point, cause, id string) string {
 	if stalled {
 		hostStream = []byte(strings.Repeat("<host-data>", 1500000)) // more than the sockets on the way can hold
 	}
+	noRead := cause == "tcp-close-while-host-does-not-read"
+	if noRead {
+		hostStream = []byte(strings.Repeat("<host-data>", 3000000)) // keeps writing until a write fails
+	}
 	b := newTagBackend(hostStream)
 	b.pace = 4 * time.Millisecond
+	b.noRead = noRead
+	if noRead {
+		b.pace, b.piece = time.Millisecond, 2000
+	}
 	if stalled {
 		b.pace, b.piece = 0, 65536
 	}
@@ -290,6 +301,18 @@ func runC11Cell(srv *l2server, transport, point, cause, id string) string {
 		time.Sleep(300 * time.Millisecond)
 		c.(*legacyConn).in.Close()
 	case "tcp-close":
+		c.close()
+	case "tcp-close-while-host-does-not-read":
+		// the client has uploaded more than the sockets towards the host hold: the packet loop is blocked
+		// writing to the host, the relay is busy towards the client; then the client goes away
+		go func() {
+			for k := 0; k < 3000; k++ {
+				if c.send(packet(ptData, dataBody([]byte(strings.Repeat("u", 4000))))) != nil {
+					return
+				}
+			}
+		}()
+		time.Sleep(1200 * time.Millisecond) // the sender is blocked by now (or done); closing ends it
 		c.close()
 	case "tcp-reset":
 		if ws, ok := c.(*wsConn); ok {
